@@ -10,8 +10,8 @@ controller model's fold of the same events and with the generator's own naive fo
 import json
 import os
 
-from .. import battlecheck, common
-from ..gen import battle
+from .. import battlecheck, common, xmltree
+from ..gen import battle, history
 
 
 def _one(args):
@@ -22,6 +22,16 @@ def _one(args):
         drv = common.Driver()
     except Exception:
         pass
+    # the version's own definitions loaded into the model: it decodes the battle's bytes itself
+    defs_loaded = False
+    if drv is not None:
+        try:
+            vdir = os.path.join(common.REPO, 'replay_unpack', 'clients', game, 'versions', version)
+            rep = drv.run([xmltree.load_request('V', xmltree.load_dir(vdir), brief=True)])[0]
+            defs_loaded = 'ok' in rep
+            load_req = xmltree.load_request('V', xmltree.load_dir(vdir), brief=True)
+        except Exception:
+            defs_loaded = False
     for k in range(n):
         b, exp, err = battlecheck.make_battle(game, version, '%s-%d' % (seed, k), rich=True)
         if b is None:
@@ -51,6 +61,32 @@ def _one(args):
             if mbad and not bad:
                 out['problems'].append(('corr', 'controller model vs implementation: %s' % json.dumps(mbad)[:400], rep))
             case['model'] = not mbad
+            # bytes -> (model: decode with the version's definitions, extract the callbacks' events, fold) vs the trace the bytes were
+            # generated from and vs the implementation's summary
+            if defs_loaded and game == 'wows':
+                ms = drv.run([load_req, {'op': 'summary.fromStream', 'defs': 'V', 'dialect': battle.dialect_for(game, version), 'strict': True,
+                                         'stream': history.stream_of(b.packets).hex()}])[1]
+                typed = [e for e in b.trace if e[0] in ('death', 'achievement') or (e[0] == 'battleEnd' and ms.get('events') and any(x[0] == 'battleEnd' for x in ms['events']))]
+                got = [e for e in ms.get('events', []) if e[0] in ('death', 'achievement', 'battleEnd')]
+                # newer versions credit an achievement to the avatar found through the (pickled, external) roster: only the order and the
+                # achievement ids are comparable there
+                strip = lambda evs: [[e[0], None, e[2]] if e[0] == 'achievement' else e for e in evs]
+                if got != typed and strip(got) == strip(typed):
+                    got, typed = strip(got), strip(typed)
+                sbad = None
+                if ms.get('end') != 'finished':
+                    sbad = 'the model does not play the battle to the end: %s' % json.dumps({kk: ms.get(kk) for kk in ('end', 'err', 'index')})
+                elif got != typed:
+                    sbad = 'events the model extracts from the bytes differ from the generated trace: %s vs %s' % (json.dumps(got)[:200], json.dumps(typed)[:200])
+                elif isinstance(hidden, dict) and [list(d) for d in hidden.get('death_map', [])] != ms['deaths']:
+                    sbad = 'death_map: implementation %s vs model-from-bytes %s' % (json.dumps(hidden.get('death_map'))[:200], json.dumps(ms['deaths'])[:200])
+                elif isinstance(hidden, dict) and (hidden.get('player_id') != ms['playerId'] or
+                                                   (hidden.get('arena_id') is not None and hidden.get('arena_id') != ms['arenaId'])):
+                    # (controllers before 0.9.2 do not report an arena id at all)
+                    sbad = 'player / arena id: implementation %s/%s vs model-from-bytes %s/%s' % (hidden.get('player_id'), hidden.get('arena_id'), ms['playerId'], ms['arenaId'])
+                if sbad and not bad:
+                    out['problems'].append(('corr', 'summary from the stream: %s' % sbad, rep))
+                case['from_stream'] = sbad is None
         if k == 0 and version.endswith('0'):
             case['sample'] = {'version': case['version'], 'events': kinds,
                               'summary_excerpt': {kk: hidden.get(kk) for kk in ('player_id', 'map', 'death_map', 'battle_result') if isinstance(hidden, dict)}}
@@ -73,6 +109,8 @@ def run(chk, drv):
                 chk.dist('event:%s' % k, v)
             if c.get('model'):
                 chk.cov['traces_validated_against_impl'] += 1
+            if c.get('from_stream'):
+                chk.dist('summary_from_stream_by_model')
         for kind, what, rep in r['problems']:
             tag = '%s/%s' % (r['game'], r['version'])
             if kind == 'oracle':
